@@ -476,6 +476,22 @@ func (r *c11Run) transfer(caller *c11Acct, v sdk.ValAddress, fromVariant bool) {
 			r.res.Violate("C11/transfer-share-movement", "transfer of %s shares: sender %s -> %s, recipient %s -> %s", amt, fs, fs2, ts, ts2)
 		}
 	}
+	// distribution bookkeeping: both parties' reward base is re-stated from what they now hold
+	for _, p := range []*c11Acct{from, to} {
+		del, err := r.c.App.StakingKeeper.GetDelegation(ctx, p.addr.Bytes(), v)
+		if err != nil {
+			continue
+		}
+		si, err := r.c.App.DistrKeeper.GetDelegatorStartingInfo(ctx, v, p.addr.Bytes())
+		if err != nil {
+			r.res.Violate("C11/starting-info-missing", "after the transfer %s has %s shares at %s but no distribution starting info (%v)", p.label, del.Shares, v, err)
+			continue
+		}
+		r.res.Count("starting_info_checks", 1)
+		if want := val2.TokensFromSharesTruncated(del.Shares); !si.Stake.Equal(want) {
+			r.res.Violate("C11/reward-base-stale", "after the transfer %s holds %s shares at %s (worth %s), but its rewards accrue on a recorded stake of %s", p.label, del.Shares, v, want, si.Stake)
+		}
+	}
 	if !val2.Tokens.Equal(val.Tokens) || !val2.DelegatorShares.Equal(val.DelegatorShares) {
 		r.res.Violate("C11/transfer-changed-validator", "transfer changed validator %s: tokens %s -> %s, shares %s -> %s", v, val.Tokens, val2.Tokens, val.DelegatorShares, val2.DelegatorShares)
 	}
